@@ -34,4 +34,5 @@ func init() {
 	register("C19", "exploration", C19)
 	register("C16", "exploration", C16)
 	register("C11", "exploration", C11)
+	register("C05", "exploration", C05)
 }
